@@ -251,7 +251,12 @@ def worker(job):
             if quit_after_failure:
                 st.inc("runs_with_quit_after_the_first_failed_removal")
             dflag = flag
-            if mode == "L" and rng.random() < 0.5:
+            if rng.random() < 0.3:
+                # several of -P/-H/-L: the last one decides (round 9: a -P that no longer overrides an earlier -L lets -delete
+                # walk through a link into a directory outside the starting points)
+                dflag = [rng.choice(["-L", "-H", "-P"]) for _ in range(rng.randint(1, 2))] + ["-" + mode]
+                st.inc("runs_with_overridden_follow_options")
+            elif mode == "L" and rng.random() < 0.5:
                 # the same follow mode spelled -follow, written before or AFTER -delete: a global option wherever it stands
                 dflag = []
                 if rng.random() < 0.6:
